@@ -124,16 +124,46 @@ def props_file(pid):
     return os.path.join(COQ, "theories", "Props", pid + ".v")
 
 
-def _sources_digest():
+def _dep_closure(pid):
+    """the .v sources Props/<pid>.v depends on (transitively), read from coq_makefile's dependency file"""
+    dfile = os.path.join(COQ, ".Makefile.d")
+    if not os.path.exists(dfile):
+        return None
+    deps = {}
+    for line in open(dfile).read().replace("\\\n", " ").splitlines():
+        if ":" not in line:
+            continue
+        lhs, rhs = line.split(":", 1)
+        tgt = [t for t in lhs.split() if t.endswith(".vo")]
+        if not tgt:
+            continue
+        src = tgt[0][:-1]
+        deps.setdefault(src, set()).update(d[:-1] for d in rhs.split() if d.endswith(".vo") and d.startswith("theories/"))
+    root = "theories/Props/%s.v" % pid
+    if root not in deps:
+        return None
+    seen, todo = set(), [root]
+    while todo:
+        x = todo.pop()
+        if x in seen:
+            continue
+        seen.add(x)
+        todo.extend(deps.get(x, ()))
+    return sorted(seen)
+
+
+def _sources_digest(pid=None):
     import hashlib
     h = hashlib.sha256()
-    for root, dirs, files in sorted(os.walk(os.path.join(COQ, "theories"))):
-        dirs.sort()
-        for f in sorted(files):
-            if f.endswith(".v"):
-                h.update(f.encode())
-                h.update(open(os.path.join(root, f), "rb").read())
-    h.update(open(os.path.join(COQ, "_CoqProject"), "rb").read())
+    files = _dep_closure(pid) if pid else None
+    if files is None:
+        files = []
+        for root, dirs, fs in sorted(os.walk(os.path.join(COQ, "theories"))):
+            dirs.sort()
+            files += [os.path.relpath(os.path.join(root, f), COQ) for f in sorted(fs) if f.endswith(".v")]
+    for f in files:
+        h.update(f.encode())
+        h.update(open(os.path.join(COQ, f), "rb").read())
     return h.hexdigest()[:24]
 
 
@@ -141,10 +171,11 @@ def check_props(pid, use_cache=True):
     """The kernel's verdict on theories/Props/<pid>.v.  The result of compiling it (coqc, with the Print Assumptions
     output) is cached under .work/ keyed by a digest of EVERY .v source of the development, so the file is
     re-checked whenever any model, lemma or property source changes and re-used otherwise (the proofs do not depend
-    on the repository under test; the correspondence check, which does, is never cached)."""
+    on the repository under test; the correspondence check, which does, is never cached).  The digest covers the
+    transitive dependency closure of the Props file (from coq_makefile's dependency file)."""
     import json
     cdir = os.path.join(WORK, "props-cache")
-    key = os.path.join(cdir, "%s-%s.json" % (pid, _sources_digest()))
+    key = os.path.join(cdir, "%s-%s.json" % (pid, _sources_digest(pid)))
     if use_cache and os.environ.get("OSV_NO_PROOF_CACHE") != "1" and os.path.exists(key):
         try:
             res = json.load(open(key))
@@ -222,7 +253,7 @@ def coqchk(pid):
     cached by source digest like check_props"""
     import json
     cdir = os.path.join(WORK, "props-cache")
-    key = os.path.join(cdir, "chk-%s-%s.json" % (pid, _sources_digest()))
+    key = os.path.join(cdir, "chk-%s-%s.json" % (pid, _sources_digest(pid)))
     if os.environ.get("OSV_NO_PROOF_CACHE") != "1" and os.path.exists(key):
         return json.load(open(key))
     t0 = time.time()
